@@ -3,6 +3,7 @@
 the observed run is accepted iff it is a path of that graph (GraphJudge)."""
 import json, os, subprocess, time
 from vlib import *
+from vlib import canon
 
 
 def run_driver(exe, cmdfile, timeout, env=None):
@@ -53,7 +54,7 @@ def _run_chunk(args):
 
 
 def replay_walks(v, g, walks, exe, obj, to_cmd, init_cmd, tag, sig_of=None, chunk=250, timeout=300,
-                 check_fin=True, drv_env=None, jobs=None, prelude=None):
+                 check_fin=True, drv_env=None, jobs=None, prelude=None, linear=False):
     """Replays walks (lists of edge indices) of graph g through the driver, chunks in parallel.
     to_cmd(act_in) -> 'action args' ; init_cmd(init_act) -> 'init args'.
     Records violations on v.  Returns number of walks validated."""
@@ -118,7 +119,16 @@ def replay_walks(v, g, walks, exe, obj, to_cmd, init_cmd, tag, sig_of=None, chun
                     if k >= len(r):
                         break
                     steps.append((act_in(edges[ei][2]), r[k].get("out"), r[k].get("obs")))
-                ok, idx, allowed = judge.run(s0, steps)
+                if linear:
+                    # behaviours from TLC -simulate: each step is judged against the walk's own edge
+                    ok, idx, allowed = True, len(steps), None
+                    for k2, (ain, oout, oobs) in enumerate(steps):
+                        e = edges[w[k2]]
+                        if canon(oout) != e[2].get("out") or canon(oobs) != e[3]:
+                            ok, idx, allowed = False, k2, [dict(out=e[2].get("out"), obs=e[3])]
+                            break
+                else:
+                    ok, idx, allowed = judge.run(s0, steps)
                 nsteps += len(steps)
                 acts = [edges[ei][2] for ei in w]
                 beh = [g["init_acts"][str(s0)]] + [act_in(a) for a in acts]
